@@ -4,7 +4,7 @@
    ExtrOcamlBasic only; numbers stay Coq's binary N. *)
 From Coq Require Import NArith List Bool String.
 From BM Require Import Base.Outcome Base.Prims Base.Layout Spec.CastSpec Spec.Monitor Model.LangValid Model.StdSlice.
-From BM Require Import Proofs.CastMust.
+From BM Require Import Spec.MustSpec.
 From BM.Gen Require Internal Root Checked Must.
 Import ListNotations.
 Open Scope bool_scope.
@@ -205,7 +205,7 @@ Definition is_bytes_of_fn (f : N) : bool := match f with 13 | 14 => true | _ => 
 (* C01 on one observed view (whatever the flavour of the cast that produced it): the view covers
    exactly the source bytes (same byte length; same start address when non-empty) and is aligned *)
 Definition view_okb (src_addr src_bytes : N) (B : ty) (a n : N) : bool :=
-  (n * sz B =? src_bytes) && ((n * sz B =? 0) || ((a =? src_addr) && (a mod al B =? 0))).
+  (n * sz B =? src_bytes) && (a mod al B =? 0) && ((n * sz B =? 0) || (a =? src_addr)).
 
 Definition monitor_c01 (k : case) (x : xobs) : bool :=
   let A := k_A k in let B := k_B k in let f := k_fn k in
